@@ -162,7 +162,11 @@ impl BigRat {
             // Handle recurring decimals
             if placed_decimal {
                 // This catches really long period ones like 1/3937.
-                if let (index, false) = seen_remainders.insert_full(cursor.clone()) {
+                // Keyed on (numer, denom) rather than the rational itself,
+                // whose Hash impl recurses once per step of Euclid's
+                // algorithm and overflows the stack for huge values.
+                let key = (cursor.inner.numer().clone(), cursor.inner.denom().clone());
+                if let (index, false) = seen_remainders.insert_full(key) {
                     // If the remainder is the same as a previous one, then it's recurring.
                     let period = n - intdigits - index as u32;
                     buf.insert(buf.len() - period as usize, '[');
